@@ -166,15 +166,16 @@ def run(ctx):
     idn = [n for n in astq.walk_fn(dm.node) if isinstance(n, ast.If) and "xn--" in astq.text(n.test)]
     ctx.sites(R3, len(idn), 1, "xn-- test")
     for n in idn:
-        t = astq.text(n.test).replace("'", '"')
+        tnode, then_b, else_b = astq.norm_if(n)
+        t = astq.text(tnode).replace("'", '"')
         ok = f'{leftmost}.startswith("xn--")' in t and 'hostname.startswith("xn--")' in t and " or " in t
-        body_app = [x for x in astq.calls(ast.Module(body=n.body, type_ignores=[])) if isinstance(x.func, ast.Attribute) and x.func.attr == "append"]
+        body_app = [x for x in astq.calls(ast.Module(body=then_b, type_ignores=[])) if isinstance(x.func, ast.Attribute) and x.func.attr == "append"]
         okb = len(body_app) == 1 and _classify_fragment(body_app[0].args[0], fold, dm.module) == ("literal", leftmost)
         ctx.ob(R3, dm.qual, f"`{t}` -> escaped literal", ok and okb, "" if ok and okb else "a wildcard embedded in an A-label would be expanded", node=n)
         # it must be tested before the partial-wildcard expansion
         part = [a for a in appends if _classify_fragment(a.args[0], fold, dm.module)[0] == "escaped-with-replacement"]
         if part:
-            in_else = astq.in_body_of(part[0], n, "orelse")
+            in_else = any(x is part[0] for s_ in else_b for x in ast.walk(s_))
             ctx.ob(R3, dm.qual, "partial-wildcard expansion only in the non-IDN branch", in_else, node=part[0])
 
     # ------------------------------------------------------------------ R4 dispatch table
